@@ -147,25 +147,30 @@ Theorem C12_empty_token_counts_but_is_lost :
 Proof. exact copy_empty_token_counts_but_is_lost. Qed.
 Print Assumptions C12_empty_token_counts_but_is_lost.
 
-(* non-vacuity of the step theorem: {"a":"<x>"}, copy /a to /b with EscapeHTML on: the hypotheses hold,
-   15 is added, and the node stored is a member of the new root whose spelling has 15 bytes *)
+(* non-vacuity of the step theorem: {"a":"<x>","c":{}}, copy /a to /c/b with EscapeHTML on: the
+   hypotheses hold, 15 is added, and the node stored is a proper descendant of the new root whose
+   spelling has 15 bytes and is the escaped spelling of the source *)
 Example C12_spelling_nonvacuous :
   let o := mkOpts true 0 false false true [] None in
-  let op : operation := [(B "op", Some (TStr (B "copy"))); (B "from", Some (TStr (B "/a"))); (B "path", Some (TStr (B "/b")))] in
-  exists r st', load_doc o (TObj [(B "a", TStr (B "<x>"))]) = Ok r /\ stinv (mkState r 0) /\
-    op_str op (B "path") = Ok (B "/b") /\ inner_nonempty (B "/b") /\
+  let op : operation := [(B "op", Some (TStr (B "copy"))); (B "from", Some (TStr (B "/a"))); (B "path", Some (TStr (B "/c/b")))] in
+  let d := TObj [(B "a", TStr (B "<x>")); (B "c", TObj [])] in
+  exists r st', load_doc o d = Ok r /\ stinv (mkState r 0) /\
+    op_str op (B "path") = Ok (B "/c/b") /\ inner_nonempty (B "/c/b") /\
     op_copy o (mkState r 0) op = Ok st' /\ s_acc st' = 15%Z /\
     exists cp, subnode cp (root_node (s_root st')) /\ cp <> root_node (s_root st') /\
                zlen (print true (render true cp)) = 15%Z /\
                print true (render true cp) = print true (TStr (B "<x>")).
 Proof.
   cbv zeta. eexists. eexists. split; [vm_compute; reflexivity|].
-  split; [eapply load_doc_inv; vm_compute; reflexivity|].
-  split; [vm_compute; reflexivity|]. split; [vm_compute; repeat constructor; discriminate|].
+  split; [apply (load_doc_inv (mkOpts true 0 false false true [] None) (TObj [(B "a", TStr (B "<x>")); (B "c", TObj [])])); vm_compute; reflexivity|].
+  split; [vm_compute; reflexivity|].
+  split. { vm_compute. repeat constructor. discriminate. }
   split; [vm_compute; reflexivity|]. split; [reflexivity|].
   eexists. split.
-  - cbn [s_root root_node node_of_con]. eapply subnode_step; [|apply subnode_refl].
-    exists (B "b"). split; [right; left; reflexivity | vm_compute; reflexivity].
+  - cbn [s_root root_node node_of_con].
+    eapply subnode_step; [exists (B "c"); split; [right; left; reflexivity | vm_compute; reflexivity]|].
+    eapply subnode_step; [exists (B "b"); split; [left; reflexivity | vm_compute; reflexivity]|].
+    apply subnode_refl.
   - split; [discriminate|]. split; vm_compute; reflexivity.
 Qed.
 
